@@ -535,7 +535,7 @@ def nest_programs(tier, seed):
     import random
     rnd = random.Random(seed * 7919 + 5)
     out = []
-    nskel = 6000 if tier == "thorough" else 400
+    nskel = 1500 if tier == "thorough" else 400
     pre = ("def l = []; def t(k) do append(l, k); k end; def thrower(v) do error v end; def deep(n) deep(n + 1) + 1; "
            "def rethrow() do undefined_name_q catch 'nomatch' 0 end; ")
     for _ in range(nskel):
